@@ -89,63 +89,81 @@ def h1_faults(k: int, kind: int, retries: int, reuse: bool, chunks: int) -> None
 
 
 class _GoAway:
-    """HTTP/2 origin policy: on the request with index `at` (arrival order,
-    after the warm-up) send GOAWAY(last_stream_id) chosen relative to that
-    stream, then answer the streams the GOAWAY still covers."""
+    """HTTP/2 origin policy: after the warm-up, count the events the server
+    sees on the first connection (request HEADERS, each DATA frame, END of a
+    request); at event number `at` send GOAWAY(last_stream_id).  Nothing is
+    answered on that connection afterwards (the h2 library in server role
+    cannot send after GOAWAY); other connections are answered normally."""
 
-    def __init__(self, at: int, rel: int, answer_first: bool) -> None:
-        self.at, self.rel, self.answer_first = at, rel, answer_first
+    def __init__(self, at: int, last: int) -> None:
+        self.at, self.last = at, last
         self.n = 0
+        self.sock: typing.Any = None  # set by the harness: the first connection's socket
+        self.goaway_end: int | None = None  # offset in the server->client stream where the GOAWAY frame ends
+        self.opened_after_reading_goaway: list[int] = []
         self.srv: H2Server | None = None
         self.goaway_last: int | None = None
-        self.trigger_sid: int | None = None
+
+    def _tick(self, srv: H2Server, sid: int) -> bool:
+        """True if this connection is the scripted one and still live."""
+        if srv.path(sid) == b"/warm":
+            return False
+        if self.srv is None:
+            self.srv = srv
+        if srv is not self.srv:
+            return False
+        if self.goaway_last is None:
+            if self.n == self.at:
+                self.goaway_last = self.last
+                srv.goaway_sent = True
+                srv.conn.close_connection(error_code=0, last_stream_id=self.last)
+                pending = len(srv.out) + len(srv.conn.data_to_send(0) if False else b"")
+                srv.flush()
+                if self.sock is not None:
+                    self.goaway_end = self.sock.produced + len(srv.out)
+            self.n += 1
+        return True
+
+    def on_headers(self, srv: H2Server, sid: int) -> None:
+        already = self.goaway_last is not None
+        if self._tick(srv, sid) and already and self.sock is not None and self.goaway_end is not None:
+            # a new stream: had the client already read the GOAWAY when it opened it?
+            if self.sock.consumed >= self.goaway_end:
+                self.opened_after_reading_goaway.append(sid)
+
+    def on_data(self, srv: H2Server, ev: typing.Any) -> None:
+        if not self._tick(srv, ev.stream_id):
+            srv.conn.acknowledge_received_data(ev.flow_controlled_length, ev.stream_id)
 
     def on_request(self, srv: H2Server, sid: int) -> None:
-        if srv.path(sid) == b"/warm" or (self.srv is not None and srv is not self.srv) or self.goaway_last is not None:
+        if not self._tick(srv, sid):
             srv.respond(sid)
-            return
-        if self.n != self.at:
-            self.n += 1
-            if self.answer_first:
-                srv.respond(sid)
-            else:
-                srv.streams[sid]["held"] = True
-            return
-        self.srv = srv
-        self.trigger_sid = sid
-        last = {0: 0, 1: sid - 2, 2: sid, 3: sid + 2}[self.rel]
-        self.goaway_last = last
-        srv.goaway_sent = True
-        srv.conn.close_connection(error_code=0, last_stream_id=last)
-        # streams the server promised to process are still answered... but the
-        # h2 library refuses to send after close_connection, so they simply
-        # get no response: the client must report that, not retry
 
 
 @harness(
     "C14", "h2_goaway",
     quick=[{"S": 1}, {"S": 2}],
-    example=dict(at=0, rel=1, d0=0, c0=0, retries=0),
+    example=dict(at=3, rel=1, d0=0, c0=0, retries=0),
     require=("refused-and-resent", "covered-by-goaway"),
     timeout={"quick": 300, "thorough": 900},
-    symbolic="which request (arrival index) triggers GOAWAY; last_stream_id in {0, below, equal, above the stream}; one deviation from the FIFO schedule; retries",
+    symbolic="the server-side event (request HEADERS / DATA frame / request END, index 0..9) at which GOAWAY is sent; last_stream_id in {0, 1, 3, 5, 7}; one deviation from the FIFO schedule; retries",
     bounds="1 or 2 concurrent requests after a warm-up on one HTTP/2 connection, max_connections=2",
     outside="GOAWAY followed by further responses on the same connection (the h2 library in server role cannot send after GOAWAY)",
     stubs=("h2 server sends GOAWAY through close_connection(last_stream_id=...)",),
 )
 def h2_goaway(at: int, rel: int, d0: int, c0: int, retries: int) -> None:
     """
-    pre: 0 <= at <= 1 and 0 <= rel <= 3 and 0 <= d0 <= 25 and 0 <= c0 <= 1 and 0 <= retries <= 1
+    pre: 0 <= at <= 9 and 0 <= rel <= 4 and 0 <= d0 <= 25 and 0 <= c0 <= 1 and 0 <= retries <= 1
     post: _
     """
     if (d0 == 0) != (c0 == 0):
         return
     S = shard("S", 1)
-    if at >= S:
+    if S == 1 and at > 4:
         return
-    a, r, dd, cc, rr = ladder(at, 0, 1), ladder(rel, 0, 3), ladder(d0, 0, 25), ladder(c0, 0, 1), ladder(retries, 0, 1)
+    a, r, dd, cc, rr = ladder(at, 0, 9), ladder(rel, 0, 4), ladder(d0, 0, 25), ladder(c0, 0, 1), ladder(retries, 0, 1)
     with concrete(a, r, dd, cc, rr):
-        pol = _GoAway(a, r, answer_first=False)
+        pol = _GoAway(a, (0, 1, 3, 5, 7)[r])
         su = Setup("h2prior", True, max_connections=2, h2_policy=pol, retries=rr)
         w = su.api.request(su.pool, "GET", su.url("warm"), extensions={"timeout": {"pool": 0, "read": 50}})
         if not P.check(w.ok, "warm-up", "once:h2:warmup"):
@@ -155,16 +173,20 @@ def h2_goaway(at: int, rel: int, d0: int, c0: int, retries: int) -> None:
             async def agen() -> typing.AsyncIterator[bytes]:
                 yield b"x"
                 yield b"y"
+                yield b"z"
 
             return agen()
 
-        callers = [Caller(f"g{i}", su.url(f"g{i}-tok"), f"g{i}-tok".encode(), method="POST", content=body()) for i in range(S)]
+        # the first caller is quick (no body, soon waits for its response and
+        # reads the GOAWAY); the last one is still uploading its body then
+        callers = [Caller(f"g{i}", su.url(f"g{i}-tok"), f"g{i}-tok".encode(),
+                          method="POST" if i == S - 1 else "GET", content=body() if i == S - 1 else None) for i in range(S)]
         run_callers(su, callers, [(dd, cc)] if dd else [])
         first = su.origins[0]
-        P.note(at=a, rel=r, dev=(dd, cc), goaway_last=pol.goaway_last, trigger=pol.trigger_sid,
+        P.note(at=a, rel=r, dev=(dd, cc), goaway_last=pol.goaway_last,
                outcomes=[(c.name, c.status, type(c.exc).__name__ if c.exc else None) for c in callers],
                origins=[[(sid, o.path(sid)) for sid in o.order] for o in su.origins])
-        sig = f"once:h2:goaway-rel{r}"
+        sig = f"once:h2:goaway-last{(0, 1, 3, 5, 7)[r]}"
         P.check(not rt.deadlocked, "terminates", sig + ":deadlock")
         for c in callers:
             heads = _heads_seen(su, c.token)
@@ -183,5 +205,5 @@ def h2_goaway(at: int, rel: int, d0: int, c0: int, retries: int) -> None:
                     P.check(scen.Outcome(exc=c.exc).documented(), "failure-reported-with-documented-type",
                             lambda: f"{sig}:{type(c.exc).__name__}", prop="C15")
         # after GOAWAY no new stream is opened on that connection
-        P.check(not first.streams_after_goaway, "no-new-stream-after-goaway",
-                lambda: f"{sig}:stream-after-goaway:{first.streams_after_goaway}")
+        P.check(not pol.opened_after_reading_goaway, "no-new-stream-once-goaway-has-been-read",
+                lambda: f"{sig}:stream-after-goaway")
